@@ -69,6 +69,17 @@ def elems_fn(elem):
     return z3.Function("elems_" + T._mangle(elem), z3.SeqSort(elem.sort()), z3.ArraySort(elem.sort(), z3.BoolSort()))
 
 
+def set_iteration_order(st, v: Val) -> Val:
+    """list(S) / iteration of a set: an ARBITRARY duplicate-free enumeration of S (hash order)."""
+    t = v.ty
+    r = fresh(T.List(t.elem), "setorder")
+    x = fresh(t.elem, "so")
+    i, j = z3.Int(fresh_name("oi")), z3.Int(fresh_name("oj"))
+    st.assume(z3.ForAll([x], z3.Contains(r, z3.Unit(x)) == z3.Select(lift(v), x)))
+    st.assume(z3.ForAll([i, j], z3.Implies(z3.And(0 <= i, i < j, j < z3.Length(r)), r[i] != r[j])))
+    return Val(T.List(t.elem), r)
+
+
 def seq_to_set(v: Val) -> Val:
     """set(list): λx. contains(list, x)."""
     t = v.ty
@@ -153,6 +164,8 @@ def _list(ex, st, args, kwargs, node):
     t = v.ty
     if isinstance(t, T.List):
         return v
+    if isinstance(t, T.Set):
+        return set_iteration_order(st, v)
     if isinstance(t, T.Dict):
         return Val(T.List(t.k), t.sort().keys(lift(v)))
     if isinstance(t, T.Ref):
@@ -200,8 +213,12 @@ def _range(ex, st, args, kwargs, node):
         raise Unsupported("range with symbolic step", node)
     from .stmts import IterInfo
 
-    n = z3.If(hi > lo, hi - lo, 0)
-    info = IterInfo("indexed", n=n, item=lambda i: Val(T.INT, lo + i))
+    if len(args) == 1:
+        n = z3.If(hi > 0, hi, 0)
+        info = IterInfo("indexed", n=n, item=lambda i: Val(T.INT, i))
+    else:
+        n = z3.If(hi > lo, hi - lo, 0)
+        info = IterInfo("indexed", n=n, item=lambda i: Val(T.INT, lo + i))
     info.range = (lo, hi)
     return Val(PYOBJ, None, ("iterinfo", info, None), True)
 
@@ -627,7 +644,10 @@ def mutate(ex, st, recv: Val, name, args, kwargs, node):
             return Val(t, z3.Concat(s, z3.Unit(lift(args[0], t.elem)))), none
         if name == "extend":
             _need(args, 1, node, name)
-            return Val(t, z3.Concat(s, lift(args[0], t))), none
+            a = args[0]
+            if isinstance(a.ty, T.Set) and not a.is_py:
+                a = set_iteration_order(st, a)
+            return Val(t, z3.Concat(s, lift(a, t))), none
         if name == "insert":
             if is_const(args[0]) and args[0].py == 0:
                 return Val(t, z3.Concat(z3.Unit(lift(args[1], t.elem)), s)), none
